@@ -324,6 +324,9 @@ func genReconn(r *Rng, prop string) *Scenario {
 			if r.chance(0.5) {
 				f.N = int(r.between(1, 3)) // retransmissions come first on a new connection
 			}
+			if f.Kind == "dropC2B" && f.N == 0 {
+				f.N = 1 // a lost CONNECT is connackNever's job (needs a connect timeout)
+			}
 		case "cutAfterResp", "dropB2C":
 			f.N = int(r.between(0, int64(nreq)+2))
 			if f.Kind == "dropB2C" && f.N == 0 {
